@@ -128,7 +128,13 @@ def rule_rx_newline(cx, rep, port):
     # CRLF must be preferred over CR: in the alternation, no alternative is a proper prefix of a later one
     alts = _top_alternatives(lang.tree)
     if alts is None:
-        rep.undecided('newline preference', node, 'alternation shape not recognised')
+        # not a plain alternation of literals (e.g. `\r\n?|\n`): ask the trusted regex engine which match it prefers on a CRLF pair
+        import re as _re
+        try:
+            m = _re.compile(R.js_to_py(pat) if port == 'js' else pat).match('\r\n')
+            rep.decide(m is not None and m.end() == 2, 'newline preference', node, 'a CRLF pair is matched as one separator (preferred match of the pattern on CR LF has length 2)', 'on a CRLF pair the pattern prefers a match of length {}: the pair is read as two line breaks'.format(m.end() if m else 0))
+        except _re.error as e:
+            rep.undecided('newline preference', node, 'pattern not compilable by the reference engine: {}'.format(e))
     else:
         bad = [(a, b) for i, a in enumerate(alts) for b in alts[i + 1:] if b.startswith(a) and a != b]
         rep.decide(not bad, 'newline preference', node, 'CRLF is tried before CR', 'the alternative {!r} is tried before {!r}: a CRLF pair is read as two line breaks'.format(*(bad[0] if bad else ('', ''))))
@@ -521,12 +527,36 @@ def rule_cs_extws(cx, rep, port):
         app = [c for c in walk_no_nested(st) if isinstance(c, ast.Call) and isinstance(c.func, ast.Attribute) and c.func.attr in ('append', 'push') and c.args and isinstance(c.args[0], ast.Constant) and c.args[0].value == '']
         rep.decide(bool(app), 'trailing delimiter', st, 'a trailing delimiter appends a final empty field', 'the trailing-delimiter arm does not append an empty field')
     # main loop: while cidx < len(src)
+    from ..snippet import inline_single_defs
     loops = [n for n in walk_no_nested(fd) if isinstance(n, ast.While)]
-    ok_loop = len(loops) == 1 and isinstance(loops[0].test, ast.Compare) and isinstance(loops[0].test.ops[0], ast.Lt) and isinstance(loops[0].test.comparators[0], ast.Call) and dotted(loops[0].test.comparators[0].func) == 'len'
+    ok_loop = False
+    if len(loops) == 1:
+        t = inline_single_defs(loops[0].test, fd)
+        ok_loop = isinstance(t, ast.Compare) and len(t.ops) == 1 and isinstance(t.ops[0], ast.Lt) and isinstance(t.left, ast.Name) and isinstance(t.comparators[0], ast.Call) and dotted(t.comparators[0].func) == 'len' and is_name(t.comparators[0].args[0], src)
     rep.decide(ok_loop, 'scan loop', loops[0] if loops else fd, 'fields are extracted while position < len(line)', 'scan loop bound not recognised / changed')
-    # warning accumulates (or)
-    warn = [n for n in walk_no_nested(fd) if isinstance(n, ast.Assign) and is_name(n.targets[0], 'warning') and isinstance(n.value, ast.BoolOp) and isinstance(n.value.op, ast.Or)]
-    rep.decide(bool(warn), 'warning accumulation', warn[0] if warn else fd, 'line warning = OR of field warnings', 'the per-line warning is overwritten instead of OR-ed: only the last field counts')
+    # the line warning only ever grows: `w = w or x`, or `w = True` under a condition; a plain overwrite loses earlier fields' warnings
+    rets = [r for r in walk_no_nested(fd) if isinstance(r, ast.Return) and isinstance(r.value, (ast.Tuple, ast.List)) and len(r.value.elts) == 2 and isinstance(r.value.elts[1], ast.Name)]
+    if not rets or not loops:
+        rep.undecided('warning accumulation', fd, 'returned warning variable not recognised')
+    else:
+        w = rets[-1].value.elts[1].id
+        sets = [n for n in walk_no_nested(loops[0]) if isinstance(n, (ast.Assign, ast.AugAssign)) and any(w in [x.id for x in ast.walk(t_) if isinstance(x, ast.Name)] for t_ in (n.targets if isinstance(n, ast.Assign) else [n.target]))]
+        mono, over = [], []
+        for n in sets:
+            if isinstance(n, ast.AugAssign) and isinstance(n.op, ast.BitOr):
+                mono.append(n)
+            elif isinstance(n, ast.Assign) and is_name(n.targets[0], w) and ((isinstance(n.value, ast.BoolOp) and isinstance(n.value.op, ast.Or) and any(is_name(v, w) for v in n.value.values)) or is_true(n.value)):
+                mono.append(n)
+            elif isinstance(n, ast.Assign) and isinstance(n.targets[0], (ast.Tuple, ast.List)):
+                over.append(n)     # `pos, warning = extract(...)`: the previous value is lost
+            elif isinstance(n, ast.Assign) and is_name(n.targets[0], w):
+                over.append(n)
+        if over:
+            rep.violated('warning accumulation', over[0], 'the per-line warning is overwritten instead of OR-ed: only the last field counts')
+        elif mono:
+            rep.holds('warning accumulation', mono[0], 'line warning = OR of field warnings')
+        else:
+            rep.violated('warning accumulation', loops[0], 'field warnings never reach the line warning')
 
 
 def _find_tests_expr(e):
